@@ -496,6 +496,20 @@ def rule_f(ctx):
             r.violate("fuzzy_equals|true-without-key-equality", "fuzzy_equals returns at %s a value that is not an equality k(a) == k(b) of a per-operand key (and is not "
                       "the constant false): the relation is then a tolerance window, which is not transitive (a==b, b==c, a!=c)" % where, where)
     r.floor("return sites of fuzzy_equals", n, 2)
+    # reflexivity for non-finite magnitudes: the arithmetic key test is NaN-poisoned for infinities (inf - inf), so identical operands must be
+    # accepted by an `a == b` test of the operands themselves
+    ident = [bb for bb, k in key_switch.items() if k == ("arg", 1)]
+    ok_ident = False
+    for bb_, i_, pl_, rv_, st_ in b.assignments():
+        if pl_.local == 0 and not pl_.proj and rv_["k"] == "use" and rv_["op"].get("k") == "const" and Operand(rv_["op"]).const_value() is True:
+            for d, fact, op, dty in an.guard_facts(b, bb_):
+                if d in ident and ((fact[0] == "not_in" and "0" in fact[1]) or (fact[0] == "in" and fact[1] != ["0"])):
+                    ok_ident = True
+    if ok_ident:
+        r.ok("fuzzy_equals|identical-operands-are-equal")
+    else:
+        r.violate("fuzzy_equals|identical-operands-are-equal", "fuzzy_equals no longer returns true directly for a == b: for two equal infinities the tolerance arithmetic is "
+                  "inf - inf = NaN, so Infinity == Infinity becomes false (== is not reflexive, index()/map-get miss infinite keys)", b.loc())
     # Number == is fuzzy_equals(self.0, other.0)
     eqb = prog.one("<grass_compiler::value::number::Number as std::cmp::PartialEq>::eq")
     cs = [c for c in eqb.calls()]
